@@ -227,6 +227,8 @@ impl WTClient {
         if let Some(tower) = self.towers.get_mut(&tower_id) {
             // DISCUSS: It may be nice to independently compute the slots and compare
             tower.available_slots = available_slots;
+            // An appointment the tower rejected before and accepts now is not invalid anymore
+            tower.invalid_appointments.remove(&locator);
 
             self.dbm
                 .store_appointment_receipt(tower_id, locator, available_slots, receipt)
